@@ -97,3 +97,38 @@ def count_family():
         body = "\n".join("%d;" % (i + 100000) for i in range(n - 8))
         out.append(("constants/%d" % n, "%s\nprint(%d);\nprint(%d + 1);\n" % (body, 100000 + n - 9, 100000)))
     return out
+
+
+def decl_limit_family():
+    """the 256-locals limit reached by every construct that declares a local: var, for loop variable (plus its hidden
+    iterator), catch variable, nested fn, class, lambda parameter list, import alias, block-level declarations"""
+    out = []
+    for n in (240, 246, 248, 249, 250, 251, 252, 253, 254, 255, 256):
+        decls = "\n".join("    var l%d = %d;" % (i, i) for i in range(n))
+        tails = {
+            "for": "    var s = 0;\n    for x in xs { s = s + x; }\n    return s + l0;",
+            "for_nested": "    var s = 0;\n    for x in xs { for y in xs { s = s + x * y; } }\n    return s;",
+            "catch": "    try { throw l1; } catch err { return err + l0; }",
+            "fn": "    fn inner(a) { return a + l0; }\n    return inner(1);",
+            "class": "    #[constructor(new)] class Local { fn m(self) { return l1; } }\n    return Local.new().m();",
+            "lambda": "    var f = |a, b| a + b + l1;\n    return f(1, 2);",
+            "import": "    import \"limmod\" as lm;\n    return lm.v + l0;",
+            "block": "    { var b1 = 1; var b2 = 2; return b1 + b2 + l1; }",
+            "while": "    var i = 0;\n    while i < 2 { var t = i; i = i + 1 + t - t; }\n    return i;",
+        }
+        for name, tail in tails.items():
+            out.append(("decl-limit-%s/%d" % (name, n), "fn f(xs) {\n%s\n%s\n}\nprint(f([1, 2, 3]));\n" % (decls, tail)))
+    return out
+
+
+def compound_after_constants():
+    """compound assignment to globals and properties in a chunk that already holds 200-600 constants (name constants
+    beyond index 255 need the two-byte operand on both the read and the write half)"""
+    out = []
+    for n in (100, 200, 250, 255, 256, 257, 300, 520, 600):
+        table = "var table = [];\n" + "\n".join("table.push([%s]);" % ", ".join(str(1000 + i) for i in range(k, min(k + 100, n))) for k in range(0, n, 100))
+        src = ("#[constructor(new)] class Counter {}\nvar c = Counter.new();\nc.hits = 7;\nc.misses = 3;\nvar total = 5;\nvar other = 50;\n%s\n"
+               "c.hits += 1;\ntotal += 1;\nc.misses *= 2;\nother -= 1;\nc.fresh = 1;\nc.fresh += 10;\nvar late = 2;\nlate <<= 3;\n"
+               "print([c.hits, c.misses, c.fresh, total, other, late, table.len()]);\n" % table)
+        out.append(("compound-consts/%d" % n, src))
+    return out
